@@ -1025,6 +1025,59 @@ fn churn_case(out: &mut Out, r: &mut Rng, thorough: bool) {
     out.count("churn.key_round");
 }
 
+/// (round 5, after seed C06-9) keys whose label slices ALIAS each other — prefixes of different length of one static
+/// label array, and a static slice next to an owned copy of it — are different keys exactly when their contents
+/// differ: they must compare unequal, get their own storages, and be listed separately. (An equality shortcut on the
+/// slice's address makes the prefixes "equal" although they hash differently: they then share a storage whenever the
+/// hashes collide in shard and tag.) Oracle only.
+fn aliasing_slices_case(out: &mut Out) {
+    out.case("aliasing label slices");
+    static LABELS: [Label; 4] = [
+        Label::from_static_parts("a", "1"),
+        Label::from_static_parts("b", "2"),
+        Label::from_static_parts("c", "3"),
+        Label::from_static_parts("d", "4"),
+    ];
+    let mut keys: Vec<(usize, Key)> = vec![];
+    for n in 0..=4usize {
+        keys.push((n, Key::from_static_parts("alias", &LABELS[..n])));
+        keys.push((n, Key::from_parts("alias", LABELS[..n].to_vec())));
+        keys.push((n, Key::from_static_labels("alias".to_string(), &LABELS[..n])));
+    }
+    let mut bad = vec![];
+    for (i, (ni, ki)) in keys.iter().enumerate() {
+        for (j, (nj, kj)) in keys.iter().enumerate() {
+            let want = ni == nj;
+            if (ki == kj) != want || (want && ki.get_hash() != kj.get_hash()) {
+                bad.push(format!("keys #{} ({} labels) and #{} ({} labels): == is {} (want {}), hashes {:#x} / {:#x}", i, ni, j, nj, ki == kj, want, ki.get_hash(), kj.get_hash()));
+            }
+        }
+    }
+    let reg: Registry<Key, AtomicStorage> = Registry::atomic();
+    let mut addr: BTreeMap<usize, usize> = BTreeMap::new();
+    for (n, k) in &keys {
+        let a = reg.get_or_create_counter(k, |c| c.addr());
+        match addr.get(n) {
+            Some(b) if *b != a => bad.push(format!("equal keys with {} labels got two storages", n)),
+            None => {
+                if addr.values().any(|b| *b == a) {
+                    bad.push(format!("the key with {} labels was given the storage of a key with another label count", n));
+                }
+                addr.insert(*n, a);
+            }
+            _ => {}
+        }
+    }
+    if reg.get_counter_handles().len() != 5 {
+        bad.push(format!("listing shows {} keys, 5 distinct keys were registered", reg.get_counter_handles().len()));
+    }
+    out.count("aliasing label slices");
+    out.nontrivial();
+    if let Some(f) = bad.first() {
+        out.oracle_fail("keys over aliasing label slices: equality / storage identity does not follow the contents", &format!("{} problems, first: {}", bad.len(), f));
+    }
+}
+
 /// The innocent witness, run once per check and only counted: 64 distinct `SipKey`s (derived `Hash`,
 /// `type Hasher = std DefaultHasher`, default `hashable()`), each registered twice as a counter on a fresh registry.
 /// (Not compared with the model: with two unrelated hash functions a lookup may hit by an accidental 7-bit tag match.)
@@ -2290,6 +2343,7 @@ pub fn run(cfg: &Cfg, out: &mut Out) {
     {
         out.case("sipkey witness");
         sip_key_witness(out);
+        aliasing_slices_case(out);
         {
             let mut r = root.fork(9_000_777);
             churn_case(out, &mut r, cfg.thorough);
